@@ -90,11 +90,11 @@ def summarise(prop, w, steps):
     return nontrivial, sig, states, tri
 
 
-def run_one(prop, verif_seed, i, keep_ops=False, max_steps=None, banned=()):
+def run_one(prop, verif_seed, i, keep_ops=False, max_steps=None, banned=(), tier='quick'):
     seed = seed_for(verif_seed, prop, i)
     rng = random.Random(seed)
     faults = faults_enabled(i)
-    prof = draw_profile(rng, prop, faults)
+    prof = draw_profile(rng, prop, faults, tier)
     w = World([ORACLES[prop]()], prof)
     w.reset_globals()
     g = Gen(rng, prof, w, banned)
